@@ -28,7 +28,8 @@ vars == <<l, st, aux, mode, rej, stats>>
 
 Tags == {"Init.hs", "Init.forged", "Init.nil", "Init.free", "Write", "Write.dead", "Write.split", "Write.multi", "Write.zero",
          "Read", "Read.data", "Read.partial", "Read.zero", "Read.timeout", "Read.eof", "Read.error", "Read.alert", "Read.kuresp",
-         "Read.peek", "Read.sticky", "KeyUpdate", "Close", "Mutate", "Keystream", "Keystream.err", "KsLaw", "Nonce"}
+         "Read.peek", "Read.sticky", "KeyUpdate", "Close", "Mutate", "Keystream", "Keystream.err", "KsLaw", "Nonce",
+         "Ramp.grow", "Ramp.full", "Ramp.off"}
 
 NoKs == [has |-> FALSE, ep |-> 0, seq |-> 0, n |-> 0, ks |-> <<>>]
 NoAux == [sc |-> 0, pat |-> [x \in Sides |-> <<0>>], run |-> 1, ks |-> [x \in Sides |-> NoKs], khist |-> {}]
@@ -83,7 +84,8 @@ StepInit(ev) ==
      IF ~Negotiable(T, ev.vers, ev.suite, ev.weak) THEN Bad("scenario-not-negotiable", nil, a0)
      ELSE IF ev.cerr # "" \/ ev.serr # "" THEN Bad("handshake-failed", nil, a0)
      ELSE IF ev.cvers # ev.vers \/ ev.svers # ev.vers \/ ev.csuite # ev.suite \/ ev.ssuite # ev.suite THEN Bad("negotiated-something-else", nil, a0)
-     ELSE LET s == InitLive(Profile(T, ev.vers, ev.suite)) IN
+     \* dynamic record sizing as the scenario configured it; the handshake flights count for bytesSent
+     ELSE LET s == InitLiveAt(WithDyn(Profile(T, ev.vers, ev.suite), ev.dyn), [x \in Sides |-> ev.sent0[x]]) IN
           IF ~StateOK(s, ev.st) THEN Bad("init-counters", nil, a0)
           ELSE Out("", s, a0, {"Init.hs"}, FALSE)
   ELSE \* forged: MakeConnWithCompleteHandshake on both ends
@@ -91,6 +93,7 @@ StepInit(ev) ==
         IF ev.cnil /\ ev.snil THEN Out("", nil, a0, {"Init.nil"}, TRUE) ELSE Bad("unsupported-suite-not-nil", nil, a0)
      ELSE IF ev.vers \notin OldVersions \/ ev.vers \notin ValidVersions(Info(T, ev.suite)) THEN Out("", nil, a0, {"Init.free"}, TRUE)
      ELSE IF ev.cnil \/ ev.snil THEN Bad("supported-suite-nil", nil, a0)
+     \* (a forged connection has a default Config: dynamic record sizing on, nothing sent yet)
      ELSE LET s == InitForged(Profile(T, ev.vers, ev.suite), TRUE) IN
           IF ~StateOK(s, ev.st) THEN Bad("init-counters", nil, a0)
           ELSE Out("", s, a0, {"Init.forged"}, FALSE)
@@ -110,6 +113,9 @@ KsLaw(a, q, x, off, recs, hdrs) ==
   /\ Len(k.ks) >= cnt /\ Len(b) >= q.expl + cnt
   /\ \A i \in 1..cnt : (k.ks[i] ^^ StreamByte(a, x, off + i - 1)) = b[q.expl + i]
 
+\* the records of this Write are exactly the ones dynamic record sizing prescribes from the ramp state the
+\* model has reached (conn.go maxPayloadSizeForWrite): same number, same ciphertext lengths
+RampOK(q, lens, hdrs) == Len(lens) = Len(hdrs) /\ \A i \in 1..Len(lens) : hdrs[i].n = CtLen(q, lens[i])
 StepWrite1(s, a, ev, x, q, hdrs, r) ==
   IF ev.off # s.wr[x].sent THEN Bad("harness-offset", s, a)
   ELSE IF \E i \in 1..Len(ev.head) : ev.head[i] # StreamByte(a, x, ev.off + i - 1) THEN Bad("harness-pattern", s, a)
@@ -119,6 +125,7 @@ StepWrite1(s, a, ev, x, q, hdrs, r) ==
   ELSE IF ~WireOK(q, r.wrote[x], hdrs) THEN Bad("record-header", s, a)
   ELSE IF ~NonceOK(q, r.wrote[x], hdrs) THEN Bad("explicit-nonce", s, a)
   ELSE IF ~StateOK(r.s, ev.st) THEN Bad("counters", s, a)
+  ELSE IF r.err = "none" /\ ~RampOK(q, RampWrite(q, s.ramp[x], ev.n).lens, hdrs) THEN Bad("record-sizing", s, a)
   ELSE IF KsLawApplies(a, x, r.wrote[x], hdrs) /\ ~KsLaw(a, q, x, ev.off, r.wrote[x], hdrs) THEN Bad("keystream-xor", s, a)
   ELSE Out("", r.s, ClearKs(a, ev),
            {"Write"} \cup (IF r.err = "error" THEN {"Write.dead"} ELSE {})
@@ -126,7 +133,10 @@ StepWrite1(s, a, ev, x, q, hdrs, r) ==
                      \cup (IF Len(hdrs) > 1 THEN {"Write.multi"} ELSE {})
                      \cup (IF ev.n = 0 THEN {"Write.zero"} ELSE {})
                      \cup (IF KsLawApplies(a, x, r.wrote[x], hdrs) THEN {"KsLaw"} ELSE {})
-                     \cup (IF HasNonce(q) /\ hdrs # <<>> THEN {"Nonce"} ELSE {}), FALSE)
+                     \cup (IF HasNonce(q) /\ hdrs # <<>> THEN {"Nonce"} ELSE {})
+                     \cup (IF hdrs # <<>> /\ ~q.dyn THEN {"Ramp.off"} ELSE {})
+                     \cup (IF Len(hdrs) > 1 /\ Ramping(q, s.ramp[x]) THEN {"Ramp.grow"} ELSE {})
+                     \cup (IF hdrs # <<>> /\ q.dyn /\ ~Ramping(q, s.ramp[x]) THEN {"Ramp.full"} ELSE {}), FALSE)
 \* what is known about the plaintext length of each record put on the wire comes from its ciphertext length
 StepWrite(s, a, ev) ==
   StepWrite1(s, a, ev, ev.x, s.q, ev.wrote[ev.x],
